@@ -1332,6 +1332,17 @@ func run(in In) vh.Result {
 }
 
 func main() {
+	// one coqc start-up per shard: small shards for the quick tier (all evaluated in parallel),
+	// large ones for the thorough tier
+	shard := 40
+	for i, a := range os.Args {
+		if (a == "-tier" || a == "--tier") && i+1 < len(os.Args) && os.Args[i+1] == "thorough" {
+			shard = 400
+		}
+		if a == "-tier=thorough" || a == "--tier=thorough" {
+			shard = 400
+		}
+	}
 	vh.Main(vh.Config{
 		Property:  "C02",
 		Imports:   []string{"Common.Bytes", "Numeric.Model", "Cursor.Sem", "Cursor.SemCorr"},
@@ -1343,6 +1354,6 @@ func main() {
 			"random query trees to depth 4 over the whole family that pass Validate(), plus small must+should(min>=1) and regexp cases, " +
 			"(thorough) every tree of depth <= 2 over 3 leaves; each searched under the 8 (score, locations, explain) combinations with Size 100; " +
 			"a case is non-trivial when the default-options search returns some but not all live documents",
-		ShardSize: 40,
+		ShardSize: shard,
 	}, gen, exec)
 }
